@@ -1,5 +1,120 @@
-"""C11 - Raw pixel load/store and iteration round-trip in both data orders  (metadata; generators live here and/or in props/C11_*.py parts)"""
+"""C11 - Raw pixel load/store and iteration round-trip in both data orders."""
+from common import *
+
 CLAIMED = False   # set True by the owner once ./check C11 passes with real theorems
 LEVEL = 'proof'
 LEVEL_TEXT = 'TODO'
 LEVEL_NOTE = 'TODO'
+RULE = 'TODO'
+TRUSTED = []
+ASSUMPTIONS = []
+PARTIAL = []
+
+BPPS = [1, 2, 4, 8, 16, 24, 32]
+USIZE_MAX = 2 ** 64 - 1
+
+
+def total(bpp, n):
+    return n * 8 // bpp
+
+
+def backgrounds(rng, n):
+    """several background byte patterns of length n"""
+    yield [0] * n
+    yield [255] * n
+    yield [(0xAA if i % 2 == 0 else 0x55) for i in range(n)]
+    yield [rng.randrange(256) for _ in range(n)]
+
+
+def some_values(rng, bpp, k):
+    m = 2 ** bpp - 1
+    vs = [0, m, 1, m >> 1, (m >> 1) + 1, 0x1234 & m, 0x123456 & m, 0x12345678 & m]
+    out = [rng.choice(vs) for _ in range(k)]
+    out.append(rng.randrange(m + 1))
+    # from_u32 masks: now and then hand over an unmasked u32
+    if rng.random() < 0.2:
+        out.append(rng.randrange(2 ** 32))
+    return out
+
+
+def far_indices(bpp):
+    n = max(1, bpp // 8)
+    # far beyond the buffer but with index * bytes_per_pixel inside usize (the model's stated range)
+    return [USIZE_MAX // n, USIZE_MAX // n - 1, 2 ** 63 // n, 2 ** 32, 2 ** 32 + 1]
+
+
+# indices whose product with 2, 3 or 4 bytes per pixel leaves usize (finding index_mul_overflow for >= 16 bpp)
+OVERFLOWING = [USIZE_MAX, 2 ** 63, 2 ** 63 + 1, 2 ** 62 + 1, USIZE_MAX // 3 + 2]
+
+
+def ops(rng, bpp, tot, k):
+    """a mix of next (N) and nth (T<k>); huge skips stay inside the model's range
+    (index * bytes_per_pixel <= usize::MAX; for <= 8 bpp every usize, the add saturates)"""
+    out = []
+    nb = max(1, bpp // 8)
+    huge_left = 1 if nb > 1 else 99
+    for _ in range(k):
+        r = rng.random()
+        if r < 0.35:
+            out.append('N')
+        elif r < 0.5:
+            out.append('T0')
+        elif r < 0.6:
+            out.append('T%d' % tot)
+        elif r < 0.64 and huge_left:
+            huge_left -= 1
+            if nb > 1:
+                out.append('T%d' % rng.choice([USIZE_MAX // nb - 4096, 2 ** 63 // nb - 4096, 2 ** 40]))
+            else:
+                out.append('T%d' % rng.choice([USIZE_MAX, USIZE_MAX - 1, 2 ** 63, 2 ** 40]))
+        else:
+            out.append('T%d' % rng.randrange(0, tot // 3 + 2))
+    return out
+
+
+def cases(tier, rng):
+    L = 6 if tier == 'quick' else 10
+    reps = 1 if tier == 'quick' else 3
+    for bpp in BPPS:
+        for alt in (0, 1):
+            for n in range(0, L + 1):
+                tot = total(bpp, n)
+                for bg in backgrounds(rng, n):
+                    yield J('rd_iter', bpp, alt, *bg)
+                    for idx in list(range(0, tot + 2)) + [rng.choice(far_indices(bpp))]:
+                        yield J('rd_load', bpp, alt, idx, *bg)
+                        for v in some_values(rng, bpp, reps):
+                            yield J('rd_store', bpp, alt, idx, v, *bg)
+                    for _ in range(2 * reps):
+                        yield J('rd_ops', bpp, alt, n, *bg, *ops(rng, bpp, tot, rng.randrange(1, 9)))
+    # longer random buffers
+    for _ in range(300 if tier == 'quick' else 3000):
+        bpp, alt, n = rng.choice(BPPS), rng.randrange(2), rng.randrange(0, 40)
+        bg = [rng.randrange(256) for _ in range(n)]
+        tot = total(bpp, n)
+        yield J('rd_iter', bpp, alt, *bg)
+        yield J('rd_ops', bpp, alt, n, *bg, *ops(rng, bpp, tot, rng.randrange(1, 16)))
+        idx = rng.randrange(0, tot + 3)
+        yield J('rd_store', bpp, alt, idx, rng.randrange(2 ** bpp), *bg)
+
+
+def search(tier, rng):
+    L = 5 if tier == 'quick' else 9
+    for bpp in BPPS:
+        for alt in (0, 1):
+            for n in range(0, L + 1):
+                tot = total(bpp, n)
+                for k, bg in enumerate(backgrounds(rng, n)):
+                    yield J('p_rd_iter', bpp, alt, rng.randrange(2 ** 32), 12, *bg)
+                    if k == 3:
+                        for idx in far_indices(bpp) + OVERFLOWING:
+                            yield J('p_rd_far', bpp, alt, idx, *bg)
+                    for idx in list(range(0, tot + 2)) + far_indices(bpp)[:2]:
+                        # exhaustive in the value up to 8 bpp always; up to 16 bpp for one background (all in thorough)
+                        mode = 1 if (bpp == 16 and (tier != 'quick' or (k == 3 and n <= 3))) or (bpp > 16 and tier != 'quick' and k == 3) else 0
+                        yield J('p_rd_store', bpp, alt, idx, mode, rng.randrange(2 ** 32), *bg)
+    for _ in range(200 if tier == 'quick' else 3000):
+        bpp, alt, n = rng.choice(BPPS), rng.randrange(2), rng.randrange(0, 48)
+        bg = [rng.randrange(256) for _ in range(n)]
+        yield J('p_rd_iter', bpp, alt, rng.randrange(2 ** 32), 24, *bg)
+        yield J('p_rd_store', bpp, alt, rng.randrange(0, total(bpp, n) + 3), 0, rng.randrange(2 ** 32), *bg)
